@@ -445,7 +445,7 @@ EXTRAS3 = {
 }
 
 EXTRAS4 = {
- "C06": ("Ebu.Proofs.ConcTrace", '/-! ### every asynchronous delivery runs exactly once (M2 with its trace, `Ebu/Spec/ConcTrace.lean`) -/\n\n/-- an async goroutine performs at most one asynchronous delivery – the one it was started for (right registration,\ntype and value) – under every schedule -/\ntheorem async_delivery_at_most_once (progs : List (List Ebu.Conc.Op)) (x : Ebu.Conc.SysT) (h : Ebu.Conc.ReachableT progs x)\n    (i : Nat) (th : Ebu.Conc.Thread) (j : Ebu.Conc.Job) (hi : x.s.ths[i]? = some th) (hj : th.job = some j) :\n    Ebu.Conc.asyncEntersOf i x.tr = [] ∨ Ebu.Conc.asyncEntersOf i x.tr = [Ebu.Conc.Obs.enter j.reg.rid j.ty j.v true] :=\n  Ebu.Conc.async_at_most_once h i th j hi hj\n\n/-- … and once the goroutine has finished it has performed it exactly once, provided the publish context is still live\n(contexts are only ever cancelled, so "live now" means "live throughout") -/\ntheorem async_delivery_exactly_once (progs : List (List Ebu.Conc.Op)) (x : Ebu.Conc.SysT) (h : Ebu.Conc.ReachableT progs x)\n    (i : Nat) (th : Ebu.Conc.Thread) (j : Ebu.Conc.Job) (hi : x.s.ths[i]? = some th) (hj : th.job = some j)\n    (hd : th.pc = .done) (hl : x.s.sh.live j.ctx = true) :\n    Ebu.Conc.asyncEntersOf i x.tr = [Ebu.Conc.Obs.enter j.reg.rid j.ty j.v true] :=\n  Ebu.Conc.async_exactly_once_when_done h i th j hi hj hd hl\n\n/-- every goroutine announced by the publisher exists, and the goroutines of the test program never perform an\nasynchronous delivery themselves -/\ntheorem spawned_goroutines_exist (progs : List (List Ebu.Conc.Op)) (x : Ebu.Conc.SysT) (h : Ebu.Conc.ReachableT progs x) :\n    (x.tr.filter (fun p => match p.2 with | .spawned _ => true | _ => false)).length =\n      (x.s.ths.filter (fun th => th.job.isSome)).length :=\n  Ebu.Conc.spawned_count h\n\n/-- LIVENESS at the end of every maximal run: under the rank hypothesis (the one documented exception of C03) a state\nfrom which no goroutine can step is quiescent – every goroutine has finished, nothing is in flight – and every\nasynchronous delivery whose publish context is live has run exactly once; in particular a goroutine blocked in `Wait`\nis never left behind -/\ntheorem maximal_run_delivers_everything (ρ : Nat → Nat) (progs : List (List Ebu.Conc.Op)) (hr : Ebu.Conc.Ranked ρ progs)\n    (x : Ebu.Conc.SysT) (h : Ebu.Conc.ReachableT progs x) (hmax : ¬ x.s.canStep) :\n    x.s.allDone ∧ x.s.sh.inflight = 0 ∧\n    ∀ i th j, x.s.ths[i]? = some th → th.job = some j → x.s.sh.live j.ctx = true →\n      Ebu.Conc.asyncEntersOf i x.tr = [Ebu.Conc.Obs.enter j.reg.rid j.ty j.v true] :=\n  Ebu.Conc.maximal_run_delivers_everything ρ progs hr h hmax\n\n/-- the traced system is the plain one with bookkeeping: the two reachability notions coincide -/\ntheorem trace_is_bookkeeping (progs : List (List Ebu.Conc.Op)) :\n    (∀ x, Ebu.Conc.ReachableT progs x → Ebu.Conc.Reachable progs x.s) ∧\n    (∀ s, Ebu.Conc.Reachable progs s → ∃ tr, Ebu.Conc.ReachableT progs ⟨s, tr⟩) :=\n  ⟨fun _ h => Ebu.Conc.reachableT_reachable h, fun _ h => Ebu.Conc.reachable_has_trace h⟩\n\n/-- why deliveries are counted with `asyncEntersOf`: the goroutine of an async handler also enters the synchronous\nhandlers of what that handler publishes -/\ntheorem nested_sync_entries_are_not_deliveries :\n    ∃ progs x i th j, Ebu.Conc.ReachableT progs x ∧ x.s.ths[i]? = some th ∧ th.job = some j ∧ th.pc = .done ∧\n      x.s.sh.live j.ctx = true ∧\n      ¬(Ebu.Conc.entersOf i x.tr = [] ∨ Ebu.Conc.entersOf i x.tr = [Ebu.Conc.Obs.enter j.reg.rid j.ty j.v true]) ∧\n      Ebu.Conc.asyncEntersOf i x.tr = [Ebu.Conc.Obs.enter j.reg.rid j.ty j.v true] :=\n  Ebu.Conc.entersOf_counterexample\n'),
+ "C06": ("Ebu.Proofs.ConcTrace\nimport Ebu.Proofs.ConcTermination", '/-! ### every asynchronous delivery runs exactly once (M2 with its trace, `Ebu/Spec/ConcTrace.lean`) -/\n\n/-- an async goroutine performs at most one asynchronous delivery – the one it was started for (right registration,\ntype and value) – under every schedule -/\ntheorem async_delivery_at_most_once (progs : List (List Ebu.Conc.Op)) (x : Ebu.Conc.SysT) (h : Ebu.Conc.ReachableT progs x)\n    (i : Nat) (th : Ebu.Conc.Thread) (j : Ebu.Conc.Job) (hi : x.s.ths[i]? = some th) (hj : th.job = some j) :\n    Ebu.Conc.asyncEntersOf i x.tr = [] ∨ Ebu.Conc.asyncEntersOf i x.tr = [Ebu.Conc.Obs.enter j.reg.rid j.ty j.v true] :=\n  Ebu.Conc.async_at_most_once h i th j hi hj\n\n/-- … and once the goroutine has finished it has performed it exactly once, provided the publish context is still live\n(contexts are only ever cancelled, so "live now" means "live throughout") -/\ntheorem async_delivery_exactly_once (progs : List (List Ebu.Conc.Op)) (x : Ebu.Conc.SysT) (h : Ebu.Conc.ReachableT progs x)\n    (i : Nat) (th : Ebu.Conc.Thread) (j : Ebu.Conc.Job) (hi : x.s.ths[i]? = some th) (hj : th.job = some j)\n    (hd : th.pc = .done) (hl : x.s.sh.live j.ctx = true) :\n    Ebu.Conc.asyncEntersOf i x.tr = [Ebu.Conc.Obs.enter j.reg.rid j.ty j.v true] :=\n  Ebu.Conc.async_exactly_once_when_done h i th j hi hj hd hl\n\n/-- every goroutine announced by the publisher exists, and the goroutines of the test program never perform an\nasynchronous delivery themselves -/\ntheorem spawned_goroutines_exist (progs : List (List Ebu.Conc.Op)) (x : Ebu.Conc.SysT) (h : Ebu.Conc.ReachableT progs x) :\n    (x.tr.filter (fun p => match p.2 with | .spawned _ => true | _ => false)).length =\n      (x.s.ths.filter (fun th => th.job.isSome)).length :=\n  Ebu.Conc.spawned_count h\n\n/-- LIVENESS at the end of every maximal run: under the rank hypothesis (the one documented exception of C03) a state\nfrom which no goroutine can step is quiescent – every goroutine has finished, nothing is in flight – and every\nasynchronous delivery whose publish context is live has run exactly once; in particular a goroutine blocked in `Wait`\nis never left behind -/\ntheorem maximal_run_delivers_everything (ρ : Nat → Nat) (progs : List (List Ebu.Conc.Op)) (hr : Ebu.Conc.Ranked ρ progs)\n    (x : Ebu.Conc.SysT) (h : Ebu.Conc.ReachableT progs x) (hmax : ¬ x.s.canStep) :\n    x.s.allDone ∧ x.s.sh.inflight = 0 ∧\n    ∀ i th j, x.s.ths[i]? = some th → th.job = some j → x.s.sh.live j.ctx = true →\n      Ebu.Conc.asyncEntersOf i x.tr = [Ebu.Conc.Obs.enter j.reg.rid j.ty j.v true] :=\n  Ebu.Conc.maximal_run_delivers_everything ρ progs hr h hmax\n\n/-- `Wait` returns, and every goroutine finishes, after finitely many steps whatever the scheduler does: under the strict\nrank hypothesis every schedule is finite and can be continued to a quiescent end -/\ntheorem wait_eventually_returns (ρ : Nat → Nat) (progs : List (List Ebu.Conc.Op)) (hr : Ebu.Conc.RankedStrict ρ progs) :\n    (∃ bound : Nat, ∀ (sched : List Nat) (s : Ebu.Conc.Sys),\n      Ebu.Conc.runSched (Ebu.Conc.initSys progs) sched = some s → sched.length ≤ bound) ∧\n    (∀ s, Ebu.Conc.Reachable progs s →\n      ∃ (sched : List Nat) (s2 : Ebu.Conc.Sys), Ebu.Conc.runSched s sched = some s2 ∧ s2.allDone ∧ s2.sh.inflight = 0) :=\n  ⟨Ebu.Conc.runs_terminate ρ progs hr, fun s h => Ebu.Conc.every_run_completes ρ progs hr s h⟩\n\n/-- the traced system is the plain one with bookkeeping: the two reachability notions coincide -/\ntheorem trace_is_bookkeeping (progs : List (List Ebu.Conc.Op)) :\n    (∀ x, Ebu.Conc.ReachableT progs x → Ebu.Conc.Reachable progs x.s) ∧\n    (∀ s, Ebu.Conc.Reachable progs s → ∃ tr, Ebu.Conc.ReachableT progs ⟨s, tr⟩) :=\n  ⟨fun _ h => Ebu.Conc.reachableT_reachable h, fun _ h => Ebu.Conc.reachable_has_trace h⟩\n\n/-- why deliveries are counted with `asyncEntersOf`: the goroutine of an async handler also enters the synchronous\nhandlers of what that handler publishes -/\ntheorem nested_sync_entries_are_not_deliveries :\n    ∃ progs x i th j, Ebu.Conc.ReachableT progs x ∧ x.s.ths[i]? = some th ∧ th.job = some j ∧ th.pc = .done ∧\n      x.s.sh.live j.ctx = true ∧\n      ¬(Ebu.Conc.entersOf i x.tr = [] ∨ Ebu.Conc.entersOf i x.tr = [Ebu.Conc.Obs.enter j.reg.rid j.ty j.v true]) ∧\n      Ebu.Conc.asyncEntersOf i x.tr = [Ebu.Conc.Obs.enter j.reg.rid j.ty j.v true] :=\n  Ebu.Conc.entersOf_counterexample\n'),
  "C07": ("Ebu.Proofs.ConcTrace", '/-! ### every event dispatched to an Async(+Sequential) handler is delivered exactly once (M2 with its trace) -/\n\n/-- the goroutine started for one event of an Async (+Sequential) handler delivers exactly that event to exactly that\nregistration, at most once – and exactly once when it has finished and the publish context is live -/\ntheorem async_sequential_delivery_exactly_once (progs : List (List Ebu.Conc.Op)) (x : Ebu.Conc.SysT)\n    (h : Ebu.Conc.ReachableT progs x) (i : Nat) (th : Ebu.Conc.Thread) (j : Ebu.Conc.Job)\n    (hi : x.s.ths[i]? = some th) (hj : th.job = some j) :\n    (Ebu.Conc.asyncEntersOf i x.tr = [] ∨ Ebu.Conc.asyncEntersOf i x.tr = [Ebu.Conc.Obs.enter j.reg.rid j.ty j.v true]) ∧\n    (th.pc = .done → x.s.sh.live j.ctx = true →\n      Ebu.Conc.asyncEntersOf i x.tr = [Ebu.Conc.Obs.enter j.reg.rid j.ty j.v true]) :=\n  ⟨Ebu.Conc.async_at_most_once h i th j hi hj, fun hd hl => Ebu.Conc.async_exactly_once_when_done h i th j hi hj hd hl⟩\n\n/-- no goroutine waits for a turn or a Sequential mutex for ever: under the rank hypothesis every maximal run ends with\nevery goroutine finished -/\ntheorem no_invocation_starves (ρ : Nat → Nat) (progs : List (List Ebu.Conc.Op)) (hr : Ebu.Conc.Ranked ρ progs)\n    (x : Ebu.Conc.SysT) (h : Ebu.Conc.ReachableT progs x) (hmax : ¬ x.s.canStep) : x.s.allDone :=\n  (Ebu.Conc.maximal_run_delivers_everything ρ progs hr h hmax).1\n'),
 }
 for extras in (EXTRAS, EXTRAS2, EXTRAS3, EXTRAS4):
